@@ -446,6 +446,13 @@ def pack_into_passes(nng, arch, verbose_packing=False):
                     curr_op.ifm2 is not None and inp == curr_op.ifm2 and next_op.ofm_shapes[0] != curr_op.ifm_shapes[1]
                 ):
                     return False
+
+            # curr_op must read all of inp: the read offset of a split/slice that was moved onto curr_op is only
+            # honoured for the primary op of a pass
+            if inp == curr_op.ifm and curr_op.read_offsets[0] is not None:
+                return False
+            if curr_op.ifm2 is not None and inp == curr_op.ifm2 and curr_op.read_offsets[1] is not None:
+                return False
         else:
             return False
 
